@@ -109,7 +109,8 @@ def mk_image(ctx, use_cd):
              'CRVAL1': R('crval1'), 'CRVAL2': R('crval2')}
     has1, has2 = Sym(z3.Bool('has_cdelt1')), Sym(z3.Bool('has_cdelt2'))
     maybe = {'CDELT1': (has1, R('cdelt1')), 'CDELT2': (has2, R('cdelt2')),
-             'CD1_1': (Not(has1) if use_cd else False, R('cd11')), 'CD2_2': (Not(has2) if use_cd else False, R('cd22')),
+             # a header may carry CDELT, CD, or both
+             'CD1_1': (Sym(z3.Bool('has_cd11')) if use_cd else False, R('cd11')), 'CD2_2': (Sym(z3.Bool('has_cd22')) if use_cd else False, R('cd22')),
              'CD1_2': (Sym(z3.Bool('has_cd12')) if use_cd else False, R('cd12')),
              'CD2_1': (Sym(z3.Bool('has_cd21')) if use_cd else False, R('cd21'))}
     hdr = SymDict("header", items, maybe)
